@@ -277,11 +277,30 @@ class Parser:
 
         element = Class(**parameters, **subcircuits)
         element.set_label(label)
+        # Parameters with both limits defined can have limits that cross the
+        # default limits, which means that both limits must be replaced at once.
+        both_limits: List[str] = [
+            k
+            for k in lower_limits
+            if not isnan(lower_limits[k]) and not isnan(upper_limits[k])
+        ]
+        element._set_limits(
+            {k: lower_limits[k] for k in both_limits},
+            {k: upper_limits[k] for k in both_limits},
+        )
         element.set_lower_limits(
-            **{k: v for k, v in lower_limits.items() if not isnan(v)}
+            **{
+                k: v
+                for k, v in lower_limits.items()
+                if not isnan(v) and k not in both_limits
+            }
         )
         element.set_upper_limits(
-            **{k: v for k, v in upper_limits.items() if not isnan(v)}
+            **{
+                k: v
+                for k, v in upper_limits.items()
+                if not isnan(v) and k not in both_limits
+            }
         )
         element.set_fixed(**fixed_parameters)
 
